@@ -218,6 +218,49 @@ def u_and_f_signature(ctx: Ctx):
     ctx.floor("signature_lists", 1)
 
 
+@rule("R16.DEFAULTS")
+def no_decision_on_defaults(ctx: Ctx):
+    """lcm treats every argument of a user function alike: whether an argument has a default value never decides
+    anything (template entries, required keyword arguments, positional binding).  Expected count: zero; the fixture
+    holds a positive control."""
+    from lcmsa.match import all_frames, frame_terms, loop_terms
+    from lcmsa.rules_eff import ensure_fixture
+
+    prog = ctx.prog
+    ensure_fixture(prog)
+
+    def scan(frames):
+        hits = []
+        for name, fr in sorted(frames.items()):
+            for t in frame_terms(fr) + loop_terms(prog, fr):
+                for s_ in walk(t):
+                    is_default_read = s_[0] == "attr" and s_[2] == "default" and any(
+                        callee_name(x) == "inspect.signature" or (x[0] == "bv") for x in walk(s_[1]))
+                    is_empty = s_[0] in ("glob", "attr") and ("Parameter.empty" in show(s_) or (s_[0] == "attr" and s_[2] == "empty"
+                                                                                              and any(x[0] == "bv" for x in walk(s_[1]))))
+                    if is_default_read or is_empty:
+                        hits.append((name.split("@")[0], s_))
+        return hits
+
+    frames = {n: f for n, f in all_frames(prog, include_extra=True).items() if not n.startswith("lcmref")}
+    own = [(n, s_) for n, s_ in scan({n: f for n, f in frames.items() if not n.startswith("lcmfix")})]
+    ctl = scan({n: f for n, f in frames.items() if n.startswith("lcmfix")})
+    if not ctl:
+        ctx.undecided("DEFAULTS:positive-control", "the scan no longer flags the fixture's use of Parameter.default")
+    ctx.count("positive_controls_flagged", len(ctl))
+    seen = set()
+    for n, s_ in own:
+        if n in seen:
+            continue
+        seen.add(n)
+        ctx.ob(f"DEFAULTS:{n.removeprefix('lcm.')}", False, prog.where(s_),
+               f"{n} looks at the default value of a user function's argument ({show(s_)[:60]}): arguments with a default are treated "
+               "differently from the others (dropped from the parameter template / not required / bound differently)", lhs=s_)
+    if not own:
+        ctx.ob("DEFAULTS:no-decision-on-defaults", True, "", "no lcm function reads Parameter.default / Parameter.empty: every argument "
+               "of a user function is treated alike")
+
+
 @rule("R0.UNDEF")
 def defined_before_use(ctx: Ctx):
     """No value that is *definitely* unassigned is used: returns, call arguments, loop updates and
